@@ -173,7 +173,11 @@ def agree_vc(name, ctx, outs, i, j, guard=None, twin=False):
         if not orc.close(x["mp"], y["mp"] + (1 if twin else 0)):
             return f"values differ: {mpmath.nstr(x['mp'], 17)} vs {mpmath.nstr(y['mp'], 17)}"
         return None
-    return VC(name, z3.And(guard, ta != tb), judge)
+    return VC(name, z3.And(guard, ta != tb), judge, {"candidates": HASH_COLLISION_POINTS})
+
+
+# CPython's real numeric-hash collisions, tried first by the replay gate (a hash-keyed table is explored symbolically on its colliding path)
+HASH_COLLISION_POINTS = [[-1, 4, -2, 4], [-2, 3, -1, 3], [-1, -1, -2, -2], [-1, -2], [-2, -1]]
 
 
 def strange(out):
